@@ -90,6 +90,10 @@ structure Cfg where
   /-- sizes of the MemorySpace and of the task vector -/
   bufCap : Nat
   taskCap : Nat
+  /-- which worker loop: `true` = `while (global_run_flag || current_index != NO_TASK)`
+  (TaskBasedIonizationSimulation.cpp since f78e960), `false` = `while (global_run_flag)` (the photon loop
+  of TaskBasedRadiationHydrodynamicsSimulation.cpp, and the ionization loop before the fix) -/
+  loopFixed : Bool := true
 
 structure State where
   /-- packets not yet handed out, per source copy (`_total_number_of_photons - _number_done`) -/
@@ -494,8 +498,10 @@ inductive Th where
   | exec (t : Nat)
   /-- after `execute`: adding the created tasks to the queues, then `scheduler.get_task` -/
   | post
-  /-- inner loop left with NO_TASK: at the termination test -/
+  /-- inner loop left with NO_TASK: at the termination test, before `_buffers->is_empty()` is read -/
   | check
+  /-- the pool was seen empty; before `num_photon_done.value()` is read -/
+  | check2
   /-- left the loop (only possible without a task) -/
   | exited
 deriving DecidableEq, Repr
@@ -525,7 +531,9 @@ inductive LLabel where
   | enq (i t : Nat)
   /-- `scheduler.get_task` at the end of the inner loop -/
   | innerPoll (i : Nat) (got : Option Nat)
-  /-- termination test succeeds: clear the flag -/
+  /-- first read of the termination test: `_buffers->is_empty()` is true -/
+  | checkEmpty (i : Nat)
+  /-- second read: `num_photon_done.value() == _number_of_photons` is true: clear the flag -/
   | checkYes (i : Nat)
   /-- termination test fails: `scheduler.get_task` -/
   | checkNo (i : Nat) (got : Option Nat)
@@ -577,10 +585,13 @@ def lstep (cfg : Cfg) (s : LState) : LLabel → Option LState
   | .topExit i =>
     match s.th i with
     | .top none => if s.p.run then none else some { s with th := upd s.th i .exited }
+    | .top (some _) =>
+      -- `while (global_run_flag)`: the thread leaves although it holds a task (which is never executed)
+      if cfg.loopFixed || s.p.run then none else some { s with th := upd s.th i .exited }
     | _ => none
   | .topGo i =>
     match s.th i with
-    | .top (some t) => some { s with th := upd s.th i (.exec t) }
+    | .top (some t) => if cfg.loopFixed || s.p.run then some { s with th := upd s.th i (.exec t) } else none
     | _ => none
   | .topPoll i got =>
     match s.th i with
@@ -626,16 +637,25 @@ def lstep (cfg : Cfg) (s : LState) : LLabel → Option LState
         | none => none
       else none
     | _ => none
-  | .checkYes i =>
+  | .checkEmpty i =>
     match s.th i with
-    | .check => match step cfg s.p .checkTermination with
-      | some p' => some { s with p := p', th := upd s.th i (.top none) }
-      | none => none
+    | .check => if poolEmpty cfg s.p then some { s with th := upd s.th i .check2 } else none
+    | _ => none
+  | .checkYes i =>
+    -- the two reads are not one action: only the counter is read now, the pool was read before
+    match s.th i with
+    | .check2 => if s.p.done.length = cfg.N then
+        some { s with p := { s.p with run := false }, th := upd s.th i (.top none) } else none
     | _ => none
   | .checkNo i got =>
     match s.th i with
     | .check =>
-      if poolEmpty cfg s.p ∧ s.p.done.length = cfg.N then none else
+      if poolEmpty cfg s.p then none else
+      match poll cfg s.p got with
+      | some p' => some { s with p := p', th := upd s.th i (.top got) }
+      | none => none
+    | .check2 =>
+      if s.p.done.length = cfg.N then none else
       match poll cfg s.p got with
       | some p' => some { s with p := p', th := upd s.th i (.top got) }
       | none => none
